@@ -4,7 +4,7 @@ from ..modules import REGS, REGHW, REGVARS
 
 
 def run(ctx):
-    if not ctx.build_harness(["c20.go", "c20vars.go", "gen_reghw.go"]):
+    if not ctx.build_harness(["c20.go", "c20ctx.go", "c20vars.go", "gen_reghw.go"]):
         return
     # Gen.Regs from the compiled reg package; Oracle.RegHW measured now: go tool asm + three decoders
     # + execution of every register write on the host CPU (throw-away module under .work/C20/reghw/probe)
@@ -15,10 +15,10 @@ def run(ctx):
     # the driver (model, tables, acceptors) must build even when a table theorem breaks
     if not ctx.build_driver():
         return
-    if ctx.lake_each(["AvoVerif.Props.C20"]):
+    if ctx.lake_each(["AvoVerif.Props.C20", "AvoVerif.Props.C20Ctx"]):
         ctx.audit("C20")
     if ctx.tier == "thorough":
-        ctx.leanchecker(["AvoVerif.Props.C20"])
+        ctx.leanchecker(["AvoVerif.Props.C20", "AvoVerif.Props.C20Ctx"])
     nt = lambda req, resp: not ((req.startswith("spec ") and int(req.split()[1]) >= 128) or req.startswith("id ")
                                 or (req.startswith("lookup") and resp == "nil"))
     ctx.run_corpus("c20", nontrivial=nt)
@@ -40,7 +40,14 @@ def run(ctx):
     floors = {"row": 172, "accept-reg": 172, "accept-var": 172, "accept-class": 172, "pas": 600, "accept-as": 150,
               "accept-ident": 14000, "accept-lookup": 1000, "lookupid": 1000, "lookupphys": 2000, "spec": 65536,
               "accept-ctor": 50, "vas": 300, "accept-vas": 40, "accept-vnew": 300, "vnew": 60, "vlook": 500,
-              "accept-vlook": 400, "accept-vlookdflt": 400, "coll": 100, "collrun": 3, "accept-fresh": 100, "accept-lookup-junk": 100}
+              "accept-vlook": 400, "accept-vlookdflt": 400, "coll": 100, "collrun": 3, "accept-fresh": 100, "accept-lookup-junk": 100,
+              # Context histories (c20ctx.go): how many, by which route, and — per call that is not a register request — how many
+              # histories have registers of one kind SEEN on both sides of that call (so no call can drop out of the sweep unnoticed)
+              "ctxh": 600, "accept-ctxfresh": 600, "ctxh:scripted": 380, "ctxh:random-route-m": 80, "ctxh:random-route-g": 80,
+              "ctxh:random-route-x": 180, "ctxh:dereference-seen": 100, "ctxh:with-errors": 200, "ctxh:300-or-more-registers": 8}
+    floors.update({"ctxh:straddle:" + name: 16 for name in (
+        "Function", "TEXT", "Implement", "SignatureExpr", "Signature", "Attributes", "Doc", "Pragma", "Label", "Comment", "AllocLocal",
+        "Load", "Store", "ParamIndex", "Instr", "StaticGlobal", "AddDatum", "ConstData", "ConstraintExpr", "Result", "Compile", "Main", "NewContext", "NewCollection")})
     for tag in runs:
         got = ctx.coverage.get("input_distribution", {}).get(tag, {}).get("requests_by_kind")
         if got is None:
@@ -80,6 +87,14 @@ def run(ctx):
         "reg.LookupID for every physical id x 18 spec values; LookupPhysical over kinds 0..4 x idx 0..33 x 12 specs; "
         "Spec.Size/Mask for all 65536 spec values; identity acceptor on all 14 878 pairs of physical registers; allocation runs of 65536 and "
         "65537 registers per kind (every allocation under recover: a refusal is accepted from allocation number 65536 on). "
+        "CONTEXT HISTORIES (ctxh / accept-ctxfresh): a build.Context embeds a reg.Collection, so registers also come from its methods, "
+        "from the package-level functions build.GP8()…K() on the global context and from Dereference; scripted sweep (register, <call>, "
+        "register of the same kind, for each of the 24 other calls (21 of the Context, build.Main, a second Context / Collection coming to life) x GP/vector/opmask x methods/package-level functions x "
+        "outside/inside a function) + n/4 random histories of 1-100 calls (some of 800-1400) with registers requested before the first "
+        "Function, between functions and after compiling, methods and package-level functions mixed: exact comparison of the registers the "
+        "caller sees (kind, rank of the id within the kind, mask) with the state machine of Model/RegCtx.lean (whose only effect on the "
+        "collection is Coll.alloc) and acceptor CtxFreshOK on the implementation's own ids per kind (theorems ctx_fresh, ctx_fresh_ok, "
+        "ctx_others_irrelevant for ALL histories). "
         "GENERATED (-n): conversion chains of length 2-5 on physical and virtual registers, mixed allocation "
         "histories, malformed/random ids, kinds, indexes and specs for the lookups and the virtual constructors. Exact comparison with the Lean model "
         "for everything the API pins down; acceptors (accept-reg/-var/-ident/-as/-lookup/-lookup-virtual/-lookup-junk/-vas/-vnew/-vlook/-vlookdflt/-ctor/"
@@ -113,8 +128,12 @@ def run(ctx):
         "model (Model/Reg.lean, shared with other properties) and are compared with the compiled package on every run (theorem spec_consts, "
         "ids_wellformed, the `id` stream): a renumbering is reported as a broken obligation, never silently mis-modelled; the oracle's class "
         "labels are taken from the compiled constants",
-        "freshness of virtual registers is proved for all histories (virt_fresh) and measured on histories of at most 600 mixed allocations plus "
-        "seven runs of 65536/65537 allocations",
+        "freshness of virtual registers is proved for all histories of a Collection and of a Context (virt_fresh, coll_run_fresh, ctx_fresh) "
+        "and measured on Collection histories of at most 600 mixed allocations, seven runs of 65536/65537 allocations, and Context histories "
+        "of at most 1400 calls (thorough: 9000); that no call of a Context other than the register constructors and Dereference touches the "
+        "collection is the MODEL (Model/RegCtx.lean), tied to the code by the history streams only (a call the generator does not know — a new "
+        "Context method — is outside it until added to c20CtxOthers); registers of two different Contexts may share ids by design (each has its "
+        "own collection) and are not compared",
     ]
     ctx.trusted += [
         "Oracle.regHW: go tool asm + go tool objdump (instruction bytes), decoders (own prefix/ModRM field extraction, binutils objdump, "
